@@ -28,7 +28,8 @@ ASSUMPTIONS = [
 PROFILE = scenario.profile(maxD=4, extra_budget=(30, 110), cons_x0=("margin",), p_cons=0.15,
                            noise_modes=("none", "none", "auto", "declared", "specified", "specified"), specified_spellings=("both", "alone"),
                            c_classes=("inside", "on_bound", "on_bound", "outside", "hardbox"), max_iter_choices=(None,), tol_mesh_choices=(None,),
-                           extra_opts=(("search_acq_fcn", ({"__callable__": "lcb_schedule", "k": 0.5}, {"__callable__": "lcb_schedule", "k": 2.0}), 0.15),))
+                           extra_opts=(("search_acq_fcn", ({"__callable__": "lcb_schedule", "k": 0.5}, {"__callable__": "lcb_schedule", "k": 2.0},
+                                                          {"__callable__": "lcb_const", "v": 1.5}), 0.2),))
 N = {"quick": 128, "thorough": 2500}
 N_UNIT = {"quick": 3000, "thorough": 100000}
 
@@ -160,7 +161,9 @@ def run_oracle(scn, tr):
                 add([viol("d:lcb-time-index", f"acquisition called with func_count={e['func_count']} but {e['ncalls']} evaluations were made", site=e["where"])])
             sb = math.sqrt(0.4 * math.log(e["D"] * tt**2 * math.pi**2 / 0.6))
             if e["custom_beta"]:
-                sb = scn["options"]["search_acq_fcn"]["k"] * sb  # the generated user schedule is k times the documented one
+                sa = scn["options"]["search_acq_fcn"]
+                # the generated user schedule is k times the documented one; a constant parameter is used as it is
+                sb = sa["k"] * sb if sa["__callable__"] == "lcb_schedule" else float(sa["v"])
             ref = np.asarray(e["mu"], dtype=float) - sb * np.sqrt(np.asarray(e["s2"], dtype=float))
             z = np.asarray(e["z"], dtype=float)
             ok = np.isclose(z, ref.reshape(z.shape), rtol=1e-9, atol=1e-12) | (np.isnan(z) & np.isnan(ref.reshape(z.shape)))
